@@ -14,8 +14,8 @@ def valid(inp):
         if not (1 <= ntp <= 3) or inp["off"] < 1 or inp["interval"] < 1 or inp["t0"] < 100:
             return False
         nh, ns = len(inp["hosts"]), len(inp["svcs"])
-        if nh < 1 or ns < 1 or nh + ns > 400:
-            return False
+        if nh < 1 or ns < 1 or nh + ns > 24:
+            return False   # the 150+ host histories are replayed as generated, not shrunk (each candidate costs seconds)
         if not all(_obj_ok(o, ntp) for o in inp["hosts"] + inp["svcs"]):
             return False
         if not inp["events"]:
@@ -98,7 +98,7 @@ PROP = Prop(
     pid="C03",
     coq_props="theories/C03/Props.v",
     coq_run=["theories/C03/Run.v"],
-    streams=[Stream("delta", "c03delta", n_quick=500, n_thorough=5000, shards_thorough=4, valid=valid, classify=classify, shrinker=shrinker,
+    streams=[Stream("delta", "c03delta", n_quick=800, n_thorough=5000, shards_thorough=4, valid=valid, classify=classify, shrinker=shrinker,
                     what="a real Peer (InitAllTables) against a scripted backend whose hosts/services mutate; data.UpdateDelta(from,until), "
                          "periodicUpdate, periodicTimeperiodsUpdate single stepped with explicit windows, shifted lastFull*Update and connection "
                          "errors after the status/hosts/services query; GET hosts/services/timeperiods after every step vs C03.Model.step, plus the "
